@@ -611,12 +611,74 @@ func main() {
 			return nil
 		},
 	}
-	r.Explore("empty-forms", "7 slice kinds x ordered pairs of {nil, empty, empty with spare capacity} x 5 holders (bare, in a collection, in a nested collection, as a ring / line / polygon member at the same index): equal in both directions through orb.Equal and the typed method, never equal to the empty value of another kind, clones equal", mc.Opts{MaxDev: -1}, func(c *mc.Ctx) {
+	r.Explore("empty-forms", "7 slice kinds x ordered pairs of {nil, empty, empty with spare capacity} x 5 holders (bare, in a collection, in a nested collection, as a ring / line / polygon member at the same index): equal in both directions through orb.Equal and the typed method, never equal to the empty value of another kind, clones equal; the clone of an empty value with spare capacity does not hand out that capacity", mc.Opts{MaxDev: -1}, func(c *mc.Ctx) {
 		k := emptyKinds[c.Choose(len(emptyKinds))]
 		i, j := c.Choose(len(k.forms)), c.Choose(len(k.forms))
 		a, b := k.forms[i], k.forms[j]
 		if !k.typed(a, b) {
 			c.Failf("equal", "%s: form %d .Equal(form %d) is false (forms: nil, empty, empty with capacity)", k.name, i, j)
+		}
+		// an empty value with spare capacity (a reset buffer, s[:0]) still owns memory: its clone must not hand that
+		// memory out - growing the clone within its capacity leaves the slots behind the original untouched
+		spareClone := func(mk func() orb.Geometry, holder func(orb.Geometry) orb.Geometry, what string) {
+			orig := mk()
+			cl := orb.Clone(holder(orig))
+			var inner reflect.Value
+			found := false
+			var walk func(v reflect.Value)
+			walk = func(v reflect.Value) {
+				if found {
+					return
+				}
+				if v.Kind() == reflect.Interface {
+					if v.IsNil() {
+						return
+					}
+					v = v.Elem()
+				}
+				if v.Kind() != reflect.Slice {
+					return
+				}
+				if v.Type() == reflect.TypeOf(orig) && v.Len() == 0 {
+					inner, found = v, true
+					return
+				}
+				for q := 0; q < v.Len(); q++ {
+					walk(v.Index(q))
+				}
+			}
+			walk(reflect.ValueOf(cl))
+			if !found || inner.Cap() == 0 {
+				return // a fresh (or nil) value: nothing shared
+			}
+			slot := inner.Slice(0, 1).Index(0)
+			switch slot.Kind() {
+			case reflect.Array: // a point
+				slot.Index(0).SetFloat(77)
+			case reflect.Slice: // a line, ring or polygon
+				slot.Set(reflect.MakeSlice(slot.Type(), 1, 1))
+			case reflect.Interface:
+				slot.Set(reflect.ValueOf(orb.Geometry(orb.Point{77, 77})))
+			}
+			if back := reflect.ValueOf(orig).Slice(0, 1).Index(0); !back.IsZero() {
+				c.Failf("clone-shares-memory", "%s: writing into the spare capacity of the clone of an empty %s changed the slot behind the original to %v", what, k.name, back.Interface())
+			}
+		}
+		if i == 2 {
+			mk := map[string]func() orb.Geometry{
+				"MultiPoint":      func() orb.Geometry { return make(orb.MultiPoint, 0, 3) },
+				"LineString":      func() orb.Geometry { return make(orb.LineString, 0, 3) },
+				"Ring":            func() orb.Geometry { return make(orb.Ring, 0, 3) },
+				"MultiLineString": func() orb.Geometry { return make(orb.MultiLineString, 0, 3) },
+				"Polygon":         func() orb.Geometry { return make(orb.Polygon, 0, 3) },
+				"MultiPolygon":    func() orb.Geometry { return make(orb.MultiPolygon, 0, 3) },
+				"Collection":      func() orb.Geometry { return make(orb.Collection, 0, 3) },
+			}[k.name]
+			for hi, h := range emptyHolders {
+				if h(mk()) != nil {
+					spareClone(mk, h, fmt.Sprintf("holder %d", hi))
+				}
+			}
 		}
 		for hi, h := range emptyHolders {
 			ha, hb := h(a), h(b)
